@@ -33,6 +33,7 @@ type Keys struct {
 	reading   bool        // Currently reading keys out of the main loop.
 	keysOnce  chan []byte // Passing keys from the main routine.
 	cursor    chan []byte // Cursor coordinates has been read on stdin.
+	asking    int32       // Number of cursor position queries waiting for their report.
 	resize    chan bool   // Resize events on Windows are sent on stdin. USED IN WINDOWS
 
 	cfg   *inputrc.Config // Configuration file used for meta key settings
